@@ -23,7 +23,7 @@ def scenes(tier):
     out.append(("F2V", [fixed("a", 2), var("b", min_duration=1, max_duration=3)] + W + [req("a", "w"), req("b", "w")], "w"))
     out.append(("F1oF2", [fixed("a", 1, optional=True), fixed("b", 2)] + W + [req("a", "w"), req("b", "w")], "w"))
     out.append(("sel", [fixed("a", 2), fixed("b", 1), worker("w"), worker("v"), select("s", ["w", "v"]), req("a", "s"), req("b", "w")], "w"))
-    if tier == "thorough":
+    if tier in ("thorough", "deep"):
         out.append(("F1F1F2", [fixed("a", 1), fixed("b", 1), fixed("c", 2)] + W + [req(i, "w") for i in "abc"], "w"))
         out.append(("VZ", [var("a", max_duration=2), zero("b")] + W + [req("a", "w"), req("b", "w")], "w"))
         out.append(("delay", [fixed("a", 3), fixed("b", 1)] + W + [req("a", "w", delay_in=1), req("b", "w")], "w"))
@@ -32,7 +32,7 @@ def scenes(tier):
 
 def cumul_scenes(tier):
     out = [("cF2F2", [fixed("a", 2), fixed("b", 2), cumul("w", 2), req("a", "w"), req("b", "w")], "w")]
-    if tier == "thorough":
+    if tier in ("thorough", "deep"):
         out.append(("cF1F2V", [fixed("a", 1), fixed("b", 2), var("c", min_duration=1, max_duration=2), cumul("w", 2)] + [req(i, "w") for i in "abc"], "w"))
     return out
 
@@ -40,7 +40,7 @@ def cumul_scenes(tier):
 def rcons(H, tier, cumulative=False):
     out = []
     ivs = alpha.intervals(H)
-    sub = ivs if tier == "thorough" else ivs[::2]
+    sub = ivs if tier in ("thorough", "deep") else ivs[::2]
     for iv in sub:
         out.append(("ResourceUnavailable", [con("ResourceUnavailable", "c1", resource=R("w"), list_of_time_intervals=[iv])]))
     for a, b in [((0, 1), (2, 3)), ((1, 2), (3, 5)), ((0, 2), (1, 3))]:
@@ -77,9 +77,9 @@ def periodic(H, tier):
             for hi in range(lo + 1, period + 1):
                 if hi - lo == period:
                     continue
-                for off in ((0, 1, 2) if tier == "thorough" else (0, 1)):
+                for off in ((0, 1, 2) if tier in ("thorough", "deep") else (0, 1)):
                     masks = [(0, None)]
-                    if tier == "thorough" or (lo + hi + off) % 2 == 0:
+                    if tier in ("thorough", "deep") or (lo + hi + off) % 2 == 0:
                         masks += [(2, None), (0, H - 2), (2, H - 1)]
                     for st, en in masks:
                         kw = {}
@@ -103,7 +103,7 @@ def same_distinct(tier):
         for n1, n2 in [(1, 1), (2, 1), (1, 2)]:
             if n1 > len(l1) or n2 > len(l2):
                 continue
-            for k1 in (("exact", "min") if tier == "thorough" else ("exact",)):
+            for k1 in (("exact", "min") if tier in ("thorough", "deep") else ("exact",)):
                 for cls in ("SameWorkers", "DistinctWorkers"):
                     base = [fixed("a", 1), fixed("b", 1)] + [worker(f"w{i}") for i in range(1, nw + 1)]
                     base += [select("s1", l1, n1, k1), select("s2", l2, n2, "exact"), req("a", "s1"), req("b", "s2"),
@@ -130,7 +130,7 @@ def jobs(tier):
            ("1V", [var("a", min_duration=1, max_duration=4), worker("w"), req("a", "w")])]
     psc.append(("cF2", [fixed("a", 2), fixed("b", 1), cumul("w", 2), req("a", "w"), req("b", "w")]))
     psc.append(("sel", [fixed("a", 2), worker("w"), worker("v"), select("s", ["w", "v"]), req("a", "s")]))
-    if tier == "thorough":
+    if tier in ("thorough", "deep"):
         psc.append(("F1F2", [fixed("a", 1), fixed("b", 2), worker("w"), req("a", "w"), req("b", "w")]))
     for (slab, sdecls) in psc:
         for pi, (clab, cdecls) in enumerate(periodic(Hp, tier)):
@@ -143,8 +143,11 @@ def jobs(tier):
 
 
 def main(tier):
-    js = jobs(tier)
-    for (lab, kind, p_) in alpha.interaction_programs(tier):
+    lvl = common.level("C04", tier)
+    js = jobs(lvl)
+    for (lab, kind, p_) in alpha.interaction_programs(lvl):
         if kind == "resource":
             js.append({"program": p_, "families": ["task", "resource", "constraint"], "family": "interaction:" + lab.split("/")[2]})
+    if lvl == "deep":
+        js = common.widen(js, by=(1,))
     return common.run_space_check("C04", tier, js, RULE, ASSUME, budget_s=110 if tier == "quick" else 1500)
